@@ -1,11 +1,11 @@
 (* Props/C03.v -- property C03: stream framing is independent of how TCP/TLS segments the bytes.
-   Proved so far (the chain towards run_framed chunks = run_framed [concat chunks] is continued in
-   Proofs/C03.v; statements not yet proved are listed in the evidence as partial):
-   the line splitter and the decoder's head scan are total, decide on inspected bytes only, and the
-   state saved at an incomplete head -- line offset AND the Content-Length seen so far -- is a sound
-   summary of the scanned prefix on every extension of the buffer. *)
-From Coq Require Import List Arith NArith Bool.
-From EZK Require Import Lib.Bytes Lib.Num Lib.Utf8 Model.C03 Proofs.C03.
+   C03_main (at the end): a stream made of well-formed messages and CR/LF keep-alives is framed into exactly
+   those messages, in order, for EVERY segmentation.  The ingredients: the line splitter and the decoder's
+   head scan are total, decide on inspected bytes only, and the state saved at an incomplete head -- line
+   offset AND the Content-Length seen so far -- is a sound summary of the scanned prefix on every
+   extension of the buffer. *)
+From Coq Require Import List Arith NArith Bool Lia.
+From EZK Require Import Lib.Bytes Lib.Num Lib.Utf8 Model.C03 Proofs.C03 Proofs.C03b.
 Import ListNotations.
 Close Scope N_scope.
 Open Scope nat_scope.
@@ -59,6 +59,50 @@ Example C03_example_names :
   map is_content_length [B"Content-Length"; B"content-length  "; B"L"; B"l"; B"Language"; B"l-custom"; B"Label"; B"Content-Lengt"]
   = [true; true; true; true; false; false; false; false].
 Proof. vm_compute. reflexivity. Qed.
+
+(* ---------- the property itself ---------- *)
+(* A message is well formed for the decoder (wfm m he cl) when it does not begin with CR/LF, its first [he]
+   bytes scan as a complete head announcing [cl] body bytes with he <= 4096, its length is he + cl, every
+   head line is UTF-8 and the start line parses.  A stream is keep-alives, then messages each followed by
+   keep-alives.  Whatever the chunks are, as long as they concatenate to the stream, the FramedRead loop
+   yields exactly the messages (frame = the message's bytes, head length, body length), no error, nothing
+   else. *)
+Theorem C03_main : forall start_ok ka0 ms chunks,
+  wf_all start_ok ms -> all_nl ka0 -> concat chunks = stream ka0 ms ->
+  run_framed start_ok chunks = map frame_of ms.
+Proof. exact framing_independent_of_segmentation. Qed.
+
+(* in particular every segmentation gives what the unsegmented stream gives *)
+Theorem C03_segmentation_independent : forall start_ok ka0 ms chunks,
+  wf_all start_ok ms -> all_nl ka0 -> concat chunks = stream ka0 ms ->
+  run_framed start_ok chunks = run_framed start_ok [stream ka0 ms].
+Proof.
+  intros start_ok ka0 ms chunks Hwf Hka Hc.
+  rewrite (framing_independent_of_segmentation start_ok ka0 ms chunks Hwf Hka Hc).
+  symmetry. apply (framing_independent_of_segmentation start_ok ka0 ms [stream ka0 ms] Hwf Hka).
+  cbn [concat]. apply app_nil_r.
+Qed.
+
+(* non-vacuity: a request with a body and a response without are well formed *)
+Example C03_example_wf :
+  let m1 := B"OPTIONS sip:a SIP/2.0" ++ [CR; LF] ++ B"Content-Length: 4" ++ [CR; LF] ++ B"Via: x" ++ [CR; LF; CR; LF] ++ B"body" in
+  let m2 := B"SIP/2.0 200 OK" ++ [CR; LF] ++ B"l: 0" ++ [CR; LF; CR; LF] in
+  wfm (fun _ => true) m1 52 4 /\ wfm (fun _ => true) m2 24 0.
+Proof.
+  split.
+  - apply mk_wfm.
+    + vm_compute. reflexivity.
+    + split; [vm_compute; lia|vm_compute; discriminate].
+    + eexists. split; vm_compute; reflexivity.
+    + vm_compute. reflexivity.
+    + split; vm_compute; reflexivity.
+  - apply mk_wfm.
+    + vm_compute. reflexivity.
+    + split; [vm_compute; lia|vm_compute; discriminate].
+    + eexists. split; vm_compute; reflexivity.
+    + vm_compute. reflexivity.
+    + split; vm_compute; reflexivity.
+Qed.
 
 (* an end-to-end instance: two messages, a keep-alive, cut in the middle of the first body and
    right after the Content-Length line, give the same frames as the unsegmented stream *)
